@@ -3,6 +3,7 @@
 From Coq Require Import ZArith List Bool Lia.
 Import ListNotations.
 From Mds Require Import Mbits.BytesBase Mbits.MbitsModel Mbits.MbitsSpec Mbits.MbitsProofs.
+From Mds Require Import Mstr.MstrModel Mstr.MstrSpec Mstr.MstrProofsTrunc.
 Local Open Scope Z_scope.
 
 (* mbits.Zero on the slice mem[off : off+n], for every memory, every offset (alignment) and every
@@ -18,3 +19,51 @@ Example C20_zero_ex :
   zero [165; 1; 0; 2; 3; 4; 5; 6; 7; 8; 9; 10; 11; 165; 165] 1 12
   = Ok ([165; 0; 0; 0; 0; 0; 0; 0; 0; 0; 0; 0; 0; 165; 165], 12).
 Proof. split; [unfold slice_ok; cbn; lia | vm_compute; reflexivity]. Qed.
+
+(* mbits.LeadingZeroes / TrailingZeroes on the slice mem[off : off+n] of a memory of bytes: a
+   normal return (no panic, no word load that leaves the slice) whose value is the byte-by-byte
+   count of zero bytes at the front / at the back of the slice; for every offset and length. *)
+Theorem C20_leading_zeroes : forall (m : list Z) (off n : Z), slice_ok m off n -> bytes_ok m ->
+  leading_zeroes m off n = Ok (count_leading (window m off n)).
+Proof. exact leading_zeroes_correct. Qed.
+Print Assumptions C20_leading_zeroes.
+
+Theorem C20_trailing_zeroes : forall (m : list Z) (off n : Z), slice_ok m off n -> bytes_ok m ->
+  trailing_zeroes m off n = Ok (count_trailing (window m off n)).
+Proof. exact trailing_zeroes_correct. Qed.
+Print Assumptions C20_trailing_zeroes.
+
+Example C20_counts_ex :
+  let m := [255; 0; 0; 0; 0; 0; 0; 0; 0; 0; 7; 0; 0; 0; 0; 0; 0; 0; 0; 0; 0; 255] in
+  slice_ok m 1 20 /\ bytes_ok m /\
+  leading_zeroes m 1 20 = Ok 9 /\ trailing_zeroes m 1 20 = Ok 10 /\
+  count_leading (window m 1 20) = 9 /\ count_trailing (window m 1 20) = 10.
+Proof.
+  cbv zeta. split; [unfold slice_ok; cbn; lia|].
+  split; [unfold bytes_ok; repeat constructor; lia|].
+  repeat split; vm_compute; reflexivity.
+Qed.
+
+(* mstr.Trunc(s, n) for every byte string s and every n >= 0: a normal return whose value is a
+   prefix of s of at most n bytes, and s itself when n >= len(s). *)
+Theorem C20_trunc_prefix : forall (s : list Z) (n : Z), 0 <= n ->
+  exists r, trunc s n = Ok r /\ is_prefix r s /\ zlen r <= n /\ (zlen s <= n -> r = s).
+Proof. exact trunc_prefix. Qed.
+Print Assumptions C20_trunc_prefix.
+
+(* ... and when s is valid UTF-8 (RFC 3629: no overlongs, no surrogates, nothing above U+10FFFF)
+   the result is valid UTF-8, and when s is longer than n it is at most 4 bytes (one encoded
+   character) shorter than n. *)
+Theorem C20_trunc_utf8 : forall (s : list Z) (n : Z), valid_utf8 s -> 0 <= n ->
+  exists r, trunc s n = Ok r /\ valid_utf8 r /\ (n < zlen s -> n - 4 <= zlen r).
+Proof. exact trunc_utf8. Qed.
+Print Assumptions C20_trunc_utf8.
+
+(* "a" U+00E9 U+20AC U+1F600 "b", cut in the middle of the 4-byte character *)
+Example C20_trunc_ex :
+  let s := [97; 195; 169; 226; 130; 172; 240; 159; 152; 128; 98] in
+  valid_utf8 s /\ trunc s 8 = Ok [97; 195; 169; 226; 130; 172] /\ trunc s 6 = Ok [97; 195; 169] /\ trunc s 11 = Ok s.
+Proof.
+  cbv zeta. split; [apply valid_utf8b_sound; vm_compute; reflexivity|].
+  repeat split; vm_compute; reflexivity.
+Qed.
